@@ -9,12 +9,24 @@ PROP = "C05"
 P = "gaussian_toolbox/pdf.py"
 
 
-def derived_diffs(q, Sref, what):
+def derived_diffs(q, Sref, what, lndet_alternatives=()):
     """precision / log-determinant of the returned density are the ones the constructor derives from exactly the reference
-    covariance (equal value numbers); that such a density is N(mu, Sigma) for *every* Sigma is the C02 constructor obligation."""
+    covariance (equal value numbers) - or, for a precision computed another way, its product with the reference covariance reduces
+    to the identity (uniqueness of the inverse) and the log-determinant equals one of the stated alternatives;
+    that such a density is N(mu, Sigma) for *every* Sigma is the C02 constructor obligation."""
     Lref, ldref = nf.inverse(Sref)
-    d = [("Lambda",) + tuple(x) for x in nf.diff(q.f["Lambda"], Lref, what=f"{what} Lambda")[:4]]
-    d += [("ln_det_Sigma",) + tuple(x) for x in nf.diff(q.f["ln_det_Sigma"], ldref, what=f"{what} ln_det_Sigma")[:4]]
+    dl = nf.diff(q.f["Lambda"], Lref, what=f"{what} Lambda")
+    if dl:
+        prod = nf.einsum("rab,rbc->rac", q.f["Lambda"], Sref, what="Lambda*Sigma")
+        target = nf.add(nf.scale(prod, 0), nf.expand_dims(nf.eye(Sref.shape[-1]), [None]))
+        if not nf.diff(prod, target, what=f"{what} Lambda*Sigma"):
+            dl = []
+    d = [("Lambda",) + tuple(x) for x in dl[:4]]
+    dd = nf.diff(q.f["ln_det_Sigma"], ldref, what=f"{what} ln_det_Sigma")
+    for alt in lndet_alternatives:
+        if dd and not nf.diff(q.f["ln_det_Sigma"], alt, what=f"{what} ln_det_Sigma"):
+            dd = []
+    d += [("ln_det_Sigma",) + tuple(x) for x in dd[:4]]
     return d
 
 
@@ -83,7 +95,11 @@ def linsum_ob(with_b, R_is_one, square=False):
             mref = nf.add(mref, b)
         d = [("Sigma",) + tuple(x) for x in nf.diff(q.f["Sigma"], Sref, what="linear-sum Sigma")[:5]]
         d += [("mu",) + tuple(x) for x in nf.diff(q.f["mu"], mref, what="linear-sum mu")[:5]]
-        d += derived_diffs(q, Sref, "linear sum")
+        alts = ()
+        if square:
+            # determinant multiplicativity for a square map (stated axiom):  ln det(W S W') = ln det S + 2 ln |det W|
+            alts = (nf.add(p.f["ln_det_Sigma"], nf.scale(nf.logdet(W), 2)),)
+        d += derived_diffs(q, Sref, "linear sum", alts)
         return d, dict(funcs=funcs_of(I))
     return Ob(f"linsum/b={int(with_b)}/R={'1' if R_is_one else 'R'}" + ("/square" if square else ""), run, "get_density_of_linear_sum(W,b) == N(W mu + b, W Sigma W'), b optional, Dsum != D generic",
               f"{P}::GaussianPDF.get_density_of_linear_sum", group="linsum")
